@@ -1,4 +1,4 @@
-import PdfModel.Model.XrefTableC01
+import PdfModel.Model.Parser
 import PdfModel.Model.XrefStream
 import PdfModel.Model.XrefFile
 import PdfModel.Model.OffsetsConcrete
@@ -11,7 +11,7 @@ import PdfModel.Model.OffsetsConcrete
 
   Rust (pdf/src/parser/parse_xref.rs, object/stream.rs, xref.rs)          model
   ----------------------------------------------------------------------  -----------------------------
-  parse_xref_stream_and_trailer: parse_indirect_stream, `trailer`?         `PdfLex.xrefStreamHead` (C01 package)
+  parse_xref_stream_and_trailer: parse_indirect_stream, `trailer`?         `OpenBytes.xrefStreamHead`
   Stream::<XRefInfo>::from_primitive: /Type /XRef required, /Size u32,      `xrefInfoOf`
      /Index (default [0 size]) as Vec<u32>, /W as Vec<usize>;
      /Length, /Filter … taken out by StreamInfo (not looked at here)
@@ -27,6 +27,24 @@ import PdfModel.Model.OffsetsConcrete
 
 namespace OpenBytes
 open PdfLex Xref
+
+/-- the keyword `trailer` -/
+def kwTrailer : List UInt8 := [116, 114, 97, 105, 108, 101, 114]
+
+/-- `parse_xref_stream_and_trailer` up to the typed conversion: the stream object as read and the trailer
+    dictionary (`trailer <<…>>` when that keyword follows, else the stream's own dictionary) -/
+def xrefStreamHead {R : Type} (env : Env R) (buf : Buf) (pos : Nat) : Out ((Prim R × Dict R) × Nat) :=
+  (parseIndirectStream env buf (defaultFuel buf) pos).bind fun ((_, stm), p) =>
+  (next buf p).bind fun w =>
+  if slice buf w.1 w.2 == kwTrailer then
+    (parseWithLexer env buf (defaultFuel buf) w.2 Flags.dict).bind fun (v, p2) =>
+    match v with
+    | .dict d => .ok ((stm, d), p2)
+    | _ => .err
+  else
+    match stm with
+    | .stream info _ => .ok ((stm, info), w.2)
+    | _ => .err
 
 variable {R : Type}
 
